@@ -329,8 +329,15 @@ void reb_simulation_remove_all_particles(struct reb_simulation* const r){
 	r->N_allocated 	= 0;
 	r->N_active 	= -1;
 	r->N_var 	= 0;
+	r->N_var_config = 0;    // Variational configurations refer to particles which no longer exist.
 	free(r->particles);
 	r->particles 	= NULL;
+	reb_tree_delete(r);     // Tree cells refer to particles which no longer exist.
+	// Hybrid integrators: no particle is in an encounter anymore.
+	r->ri_trace.encounter_N = 0;
+	r->ri_trace.encounter_N_active = 0;
+	r->ri_mercurius.encounter_N = 0;
+	r->ri_mercurius.encounter_N_active = 0;
 }
 
 int reb_simulation_remove_particle(struct reb_simulation* const r, int index, int keep_sorted){
